@@ -256,6 +256,33 @@ func runC12(c *Ctx, idx int, o *Obs) {
 					o.Check(ok && mask&^sk.Opt[nd] == 0, "cli_acr_state_not_optimal", fmt.Sprintf("gotree acr --algo %s: node reports %q", al.name, nd.NodeComments[0]), inp+" => "+Trunc(res.Stdout, 1500))
 				}
 			}
+			// the same tree as second of three in one file (first: re-rooted copy, third: another tree on the same tips)
+			if strings.Count(text, ";") == 1 && !strings.ContainsAny(text, "\n\r") {
+				t1 := mustParse(text)
+				if in := innerNodes(t1); len(in) > 0 {
+					_ = t1.Reroot(in[r.Intn(len(in))])
+				}
+				t3 := mustParse(text)
+				rand.Seed(r.Int63())
+				t3.ShuffleTips()
+				st3 := ref.Sankoff(modelOf(t3), k, tipSet)
+				fm := tmpFile(c, "t3.nw", t1.Newick()+"\n"+text+"\n"+t3.Newick()+"\n")
+				res3 := runCLI(c, "", "acr", "-i", fm, "--states", fs, "--algo", al.name, "--out-steps", "steps3.txt")
+				o.Ev("cli_multi", 1)
+				if o.Check(res3.Exit == 0 && !res3.Panic, "cli_acr_failed", "three trees: "+res3.brief(), inp) {
+					sl := strings.Split(strings.TrimSpace(readTmp(c, "steps3.txt")), "\n")
+					want := []int{minSteps, minSteps, st3.Min}
+					if o.Check(len(sl) == 3, "cli_acr_steps", fmt.Sprintf("gotree acr on 3 trees printed %d step lines", len(sl)), inp) {
+						for i := range sl {
+							o.Check(strings.TrimSpace(sl[i]) == fmt.Sprintf("steps %d", want[i]), "cli_acr_steps", fmt.Sprintf("gotree acr --algo %s, tree %d of 3: printed %q, minimum is %d", al.name, i, sl[i], want[i]), inp, "multi", "true")
+						}
+					}
+					ol := strings.Split(strings.TrimSpace(res3.Stdout), "\n")
+					if o.Check(len(ol) == 3, "cli_acr_output", fmt.Sprintf("%d output trees for 3 input trees", len(ol)), inp) {
+						o.Check(ol[1] == strings.TrimSpace(res.Stdout), "cli_multi_differs", "gotree acr: the second tree of a three-tree file is not annotated like the same tree alone: "+firstDiff(strings.TrimSpace(res.Stdout), ol[1]), inp, "cmd", "acr")
+					}
+				}
+			}
 		}
 	}
 	_ = rand.Int
@@ -455,6 +482,21 @@ func c12ASR(c *Ctx, r *rand.Rand, idx int, o *Obs, text string, tips []string) {
 					sk := ref.Sankoff(am, 5, func(name string) uint64 { return nucMask(seqs[name][j]) })
 					if !o.Check(logTxt[1+j] == strconv.Itoa(sk.Min), "cli_asr_steps", fmt.Sprintf("gotree asr --algo %s site %d: printed %s steps, minimum is %d", al.name, j, logTxt[1+j], sk.Min), inp) {
 						break
+					}
+				}
+			}
+			if strings.Count(text, ";") == 1 && !strings.ContainsAny(text, "\n\r") {
+				t1 := mustParse(text)
+				if in := innerNodes(t1); len(in) > 0 {
+					_ = t1.Reroot(in[r.Intn(len(in))])
+				}
+				fm := tmpFile(c, "t3.nw", t1.Newick()+"\n"+text+"\n"+t1.Newick()+"\n")
+				res3 := runCLI(c, "", "asr", "-i", fm, "-a", fa, "--algo", al.name, "--log", "log3.txt")
+				o.Ev("cli_multi", 1)
+				if o.Check(res3.Exit == 0 && !res3.Panic, "cli_asr_failed", "three trees: "+res3.brief(), inp) {
+					ol := strings.Split(strings.TrimSpace(res3.Stdout), "\n")
+					if o.Check(len(ol) == 3, "cli_asr_output", fmt.Sprintf("%d output trees for 3 input trees", len(ol)), inp) {
+						o.Check(ol[1] == strings.TrimSpace(res.Stdout), "cli_multi_differs", "gotree asr: the second tree of a three-tree file is not annotated like the same tree alone: "+firstDiff(strings.TrimSpace(res.Stdout), ol[1]), inp, "cmd", "asr")
 					}
 				}
 			}
